@@ -17,18 +17,37 @@ class ReadBudgetExceeded(BaseException):
 
 
 STALL_LIMIT = 20000
+CYCLE_KEYS = 32        # a "tight cycle" revisits at most this many distinct (operation, position, size) triples ...
+CYCLE_LIMIT = 200000   # ... for this many consecutive reader calls without a single new triple in between
 
 
 class Budget:
-    """Deterministic clock for "terminates": total reader calls, plus a stall detector (consecutive reads that
-    return nothing - the signature of a loop waiting at EOF for a byte that never comes)."""
+    """Deterministic clock for "terminates": total reader calls, plus two no-progress detectors that fire long before
+    the total budget does: a stall detector (consecutive reads that return nothing - the signature of a loop waiting at
+    EOF for a byte that never comes) and a cycle detector (the same few seek/read operations at the same positions
+    repeated for CYCLE_LIMIT consecutive calls - the signature of a scan loop that forgot to advance)."""
 
-    __slots__ = ("limit", "used", "stall")
+    __slots__ = ("limit", "used", "stall", "recent", "cyc")
 
     def __init__(self, limit: int):
         self.limit = limit
         self.used = 0
         self.stall = 0
+        self.recent = set()
+        self.cyc = 0
+
+    def op(self, key) -> None:
+        """Called for every seek/read with (kind, position, size)."""
+        if key in self.recent:
+            self.cyc += 1
+            if self.cyc > CYCLE_LIMIT:
+                raise ReadBudgetExceeded(f"{CYCLE_LIMIT} consecutive reader calls revisiting the same <= {CYCLE_KEYS} "
+                                         f"(operation, position, size) triples: scan loop that does not advance")
+        else:
+            self.cyc = 0
+            if len(self.recent) >= CYCLE_KEYS:
+                self.recent.clear()
+            self.recent.add(key)
 
     def tick(self) -> None:
         self.used += 1
@@ -62,8 +81,10 @@ class SimFile(_real_io.BytesIO):
 
     def read(self, n=-1):
         self._budget.tick()
+        pos = super().tell()
+        self._budget.op(("r", pos, n))
         if self._trace is not None:
-            self._trace.append(("r", super().tell(), n))
+            self._trace.append(("r", pos, n))
         data = super().read(n)
         self._budget.read_result(n, data)
         return data
@@ -74,6 +95,7 @@ class SimFile(_real_io.BytesIO):
 
     def seek(self, off, whence=0):
         self._budget.tick()
+        self._budget.op(("s", off, whence, super().tell() if whence == 1 else 0))
         if self._trace is not None:
             self._trace.append(("s", off, whence))
         return super().seek(off, whence)
@@ -88,6 +110,7 @@ class _CountingBytesIO(_real_io.BytesIO):
 
     def read(self, n=-1):
         _current_budget.tick()
+        _current_budget.op(("r", super().tell(), n))
         data = super().read(n)
         _current_budget.read_result(n, data)
         return data
@@ -102,7 +125,53 @@ class _CountingBytesIO(_real_io.BytesIO):
 
     def seek(self, off, whence=0):
         _current_budget.tick()
+        _current_budget.op(("s", off, whence, super().tell() if whence == 1 else 0))
         return super().seek(off, whence)
+
+
+class _CountingRealFile:
+    """What `open(path, "rb")` returns inside the reader modules while the seam is active: the real buffered file
+    object (real file I/O stays real) with every read/seek/tell counted against the active budget, so that
+    from_path entry points are under the same deterministic termination clock as from_file/from_bytes."""
+
+    def __init__(self, fh):
+        self._fh = fh
+
+    def read(self, n=-1):
+        _current_budget.tick()
+        _current_budget.op(("r", self._fh.tell(), n))
+        data = self._fh.read(n)
+        _current_budget.read_result(n, data)
+        return data
+
+    def seek(self, off, whence=0):
+        _current_budget.tick()
+        _current_budget.op(("s", off, whence, self._fh.tell() if whence == 1 else 0))
+        return self._fh.seek(off, whence)
+
+    def tell(self):
+        _current_budget.tick()
+        return self._fh.tell()
+
+    def __enter__(self):
+        return self
+
+    def __exit__(self, *exc):
+        self._fh.close()
+        return False
+
+    def __getattr__(self, name):
+        return getattr(self._fh, name)
+
+    def __iter__(self):
+        return iter(self._fh)
+
+
+def _counting_open(path, mode="r", *a, **kw):
+    fh = open(path, mode, *a, **kw)
+    if "b" in mode and not any(c in mode for c in "wa+x"):
+        return _CountingRealFile(fh)
+    return fh
 
 
 def _make_shim(buffer_size: int):
@@ -114,6 +183,7 @@ def _make_shim(buffer_size: int):
     return shim
 
 
+_MISSING = object()
 READER_MODULES = ("utils", "beacon", "xordecode", "guardrails", "pe", "artifact", "c2")
 
 
@@ -124,6 +194,7 @@ class IoSeam:
         self.buffer_size = buffer_size if buffer_size is not None else _real_io.DEFAULT_BUFFER_SIZE
         self.budget = budget or Budget(1 << 62)
         self._saved = {}
+        self._saved_open = []
 
     def __enter__(self):
         global _current_budget
@@ -134,6 +205,10 @@ class IoSeam:
             if hasattr(mod, "io"):
                 self._saved[mod] = mod.io
                 mod.io = shim
+            if name in ("beacon", "xordecode"):
+                # `open` is looked up as a module global before the builtin: from_path reads through a counted handle
+                self._saved_open.append((mod, mod.__dict__.get("open", _MISSING)))
+                mod.open = _counting_open
         self._prev_budget = _current_budget
         _current_budget = self.budget
         return self
@@ -143,6 +218,12 @@ class IoSeam:
         for mod, orig in self._saved.items():
             mod.io = orig
         self._saved.clear()
+        for mod, orig in self._saved_open:
+            if orig is _MISSING:
+                del mod.open
+            else:
+                mod.open = orig
+        self._saved_open.clear()
         _current_budget = self._prev_budget
         return False
 
